@@ -611,6 +611,11 @@ func loginMain(args []string) error {
 		if s.KeyBits == 1024 && s.NonceLen > 32 {
 			s.NonceLen = 32
 		}
+		if rng.Intn(4) == 0 {
+			// the nonce that, together with the 32-byte session key, fills the key's capacity exactly
+			// (RSA-OAEP/SHA-1: key bytes - 42)
+			s.NonceLen = s.KeyBits/8 - 42 - 32
+		}
 		s.Pw = randSecret(rng, 1+rng.Intn(24))
 		s.User = "sa" + randName(rng, 5)
 		s.Cut = rng.Int63()
